@@ -250,6 +250,8 @@ PROPS["C05"]["tasks"] = PROPS["C05"]["tasks"] + ["IndexMarket.__init__"]
 PROPS["C07"]["tasks"] = PROPS["C07"]["tasks"] + [t for t in SKELETON + RUNNER_ELEMS if t not in PROPS["C07"]["tasks"]]
 # round 8: the best quotes are read from the top of the heap, so "quotes describe the current book" rests on the heap invariant kept by every book operation (C08)
 PROPS["C08"]["tasks"] = PROPS["C08"]["tasks"] + [t for t in ("OrderBook.add", "OrderBook.cancel", "OrderBook._remove", "OrderBook.change_order_volume", "OrderBook._check_expired_orders") if t not in PROPS["C08"]["tasks"]]
+# round 8: a matching round is only started on a running market; the halt rule is the one built-in writer of that switch besides the session start (C03 depends on its gate invariant)
+PROPS["C03"]["tasks"] = PROPS["C03"]["tasks"] + ["TradingHaltRule.hooked_before_step_for_market", "TradingHaltRule.hooked_after_execution"]
 from .census import CALLERS as _CALLERS
 for _g, (_ps, _r, _t) in _CALLERS.items():
     for _p in _ps:
